@@ -25,8 +25,12 @@ CHECKS = [
   "text": "User models are quantified over by an uninterpreted, position-sensitive model_func registered through the real NaniteFitModel: z3 shows for every abscissa array of length N<=4 of either orientation that the default wrappers return f(delta) / rev(f(rev(delta))), call f only with approach-ordered data, leave inputs unmodified and that the default residual is (force-model)*weights; for each shipped model_func (NRA) translation covariance, baseline additivity, linear modulus scaling, the continuity bound at contact, monotonicity in depth on (0,R] and zero residual on self-generated data.",
   "note": "reals; user model = uninterpreted function (no side effects); Clifford monotonicity not decided and not claimed; depth beyond tip radius outside",
   "technique": SYMX},
+ {"id": "C14", "level": "other", "engine": "crosshair",
+  "text": "CrossHair/z3 executes the real autosort, check_order and apply on a list of L pairwise different solver-chosen step indices, one condition per length, each run to 'Confirmed over all paths' (L<=5 quick, L<=6 = all 1957 ordered selections thorough): closed selections are sorted into a permutation satisfying an independent order predicate and check_order, idempotently, valid orders unchanged; check_order passes iff the predicate holds; apply accepts iff required steps occur earlier; available() is valid; unknown identifiers (symbolic str) raise KeyError. Counterexamples are replayed on the real module.",
+  "note": "step bodies are no-ops for the apply condition; six shipped steps; unknown identifiers up to 3 characters; CrossHair's path exhaustion is trusted",
+  "technique": "CrossHair symbolic execution of the real functions + z3, confirmed over all paths"},
 ]
 _PENDING = "check not built yet in this round (planned in DESIGN.md section 4)"
 NOT_APPLICABLE = [
  {"property_id": "C01", "reason": "recovery of generating parameters is a statement about MINPACK/Nelder-Mead convergence (iterative compiled floating point, data-dependent trip count, noise): not encodable for a solver; stubbing the optimiser would assume the conclusion. Optimiser-independent parts are decided under C04/C05/C11/C13."},
-] + [{"property_id": f"C{i:02d}", "reason": _PENDING} for i in range(3, 21) if i not in (4, 5, 10, 11, 13)]
+] + [{"property_id": f"C{i:02d}", "reason": _PENDING} for i in range(3, 21) if i not in (4, 5, 10, 11, 13, 14)]
